@@ -36,7 +36,7 @@ ANN_NOTE = ("Trusted: TLC 1.8 + Json module; token concretisation (digits for pl
 _ann = ("Annotate.tla (one action per iteration of the annotation loop: translate through SpanUpdater, clip, balance test, style-tag repair, wrap, emit) "
         "and SpanUpdater.tla are model-checked by TLC for every target text of <= 4 tokens (text, inserted whitespace, <i>, <p>, (<b>)), with and without a source, "
         "3 modes, every sorted list of <= 2 spans, and for every well-formed markup of <= 8 tokens; every terminal configuration of the emit instances is replayed "
-        "through the real annotate_citations with both diff engines, plus long multi-line forced-alignment documents and arbitrary string pairs; "
+        "through the real annotate_citations with both diff engines (incl. bold runs with self-closing elements and style runs with two annotations), plus every span and every pair of spans of short texts with blanks, long multi-line forced-alignment documents, the clean -> extract -> annotate pipeline on marked-up documents and arbitrary string pairs; "
         "TLC judges every recorded output with the monitor clauses and compares it with the model. ")
 CHECKS["C09"] = dict(engine="annotate", design="4 C09", technique="TLA+ model checking of Annotate.tla (invariant Additive at every loop step) + configuration replay + TLC trace validation",
    text=_ann + "C09 clause: the output with the inserted strings removed equals the target text.", note=ANN_NOTE)
@@ -48,7 +48,7 @@ CHECKS["C20"] = dict(engine="clean", design="4 C20", technique="TLA+ model check
    text=("Clean.tla transcribes the three regex cleaners over six character classes, clean_text as a fold with ValueError, and the html cleaner over properly nested "
          "token documents (div/p/i/script/style/head/link, blank and non-blank text, entities). TLC checks idempotence, no-run-left, other-characters-kept for every text of "
          "<= 6 (thorough 8) characters and the composition law for every split of every step list; every emitted text (two concretisations) and document is run through "
-         "the real cleaners and TLC judges the recorded outputs (incl. clean_text(t, s) vs step-by-step for all lists of <= 3 steps with repeats and unknown names, and "
+         "the real cleaners and TLC judges the recorded outputs (incl. clean_text(t, s) vs step-by-step for all lists of <= 3 steps with repeats, unknown names, custom callables and non-callable step values, and "
          "html() = visible text nodes joined by spaces) and compares class images with the model."),
    note="Trusted: TLC + Json module; class representatives (harness/drv_clean.py); lxml's HTML parser defines what a text node is (documents avoid leading whitespace in text nodes, <title>, empty input).")
 CHECKS["C13"] = dict(engine="ahofilter", design="4 C13", technique="regular-language inclusion decided by TLC on the product NFA x Aho-Corasick automaton (RegexIncl.tla) for every extractor + TLC-judged differential traces",
@@ -72,7 +72,7 @@ CHECKS["C03"] = dict(engine="filter", design="4 C03", technique="TLA+ model chec
 CHECKS["C18"] = dict(engine="editions", design="4 C18", technique="TLA+ model checking of Editions.tla (get_year / includes_year / guess_edition) + extraction over every ambiguous reporter string x boundary years x year positions + TLC trace validation",
    text=("Editions.tla transcribes get_year, Edition.includes_year, guess_edition and the ambiguity filter; TLC checks YearSound and GuessSound for every candidate configuration "
          "(<= 2 exact and <= 2 variation editions, every open/closed date range) and every year on both sides of every boundary, on both year paths. Every ambiguous reporter string of the "
-         "installed reporters-db (thorough: every string) x boundary years x six year positions is extracted with and without remove_ambiguous; TLC judges year range / year text / guess "
+         "installed reporters-db (thorough: every string) x boundary years x six year positions, and texts with a year both before a parallel group and after it (each in / out of range), are extracted with and without remove_ambiguous; TLC judges year range / year text / guess "
          "membership / single candidate / needs-year / only-candidate-publishing / disambiguation = filter of the default run, and recomputes every guess with the model."),
    note="Trusted: TLC + Json; candidate editions and their date ranges are read from the citation's own Edition objects; 'own year' = not a parallel citation (same full-span start as the preceding full case citation).")
 CHECKS["C16"] = dict(engine="equality", design="4 C16", technique="TLA+ model checking of Equality.tla (hash / == / Resource over a toy database, all pairs) + database-exhaustive comparison groups + TLC trace validation",
